@@ -1,5 +1,5 @@
 (* C02: once shutdown has started the supervisor is never stuck and never time-locked (for
-   runnables that exit when signalled): some internal step, some step the implementation performs
+   runnables none of whose Run stays inside forever): some internal step, some step the implementation performs
    by itself, or some step a contract-abiding runnable owes (its Run/Stop/Reload/IsRunning call
    returning) is always enabled - never only the shutdown timeout. *)
 From Coq Require Import List NArith Bool Arith Lia.
@@ -17,8 +17,19 @@ Definition is_progress (l : label) : bool :=
   | _ => true
   end.
 
+(* the child contract of C02 ("Run returns after Stop or cancellation"): no runnable's Run may stay
+   inside forever.  A Run that also returns BY ITSELF - with nil, with a cancellation error or with a real
+   error, at any time (ExitFree: the failure triggers, start-up failures) - satisfies it. *)
 Definition good (c : config) : Prop :=
-  forall i, i < nrun c -> run_exit (spec c i) = ExitOnSignal.
+  forall i, i < nrun c -> run_exit (spec c i) <> ExitNever.
+
+(* under the contract, the Run of a runnable that was told to stop (or whose context ended) may return *)
+Lemma good_may_return c s i :
+  good c -> i < nrun c -> get false (stop_called s) i || ctx_done s = true -> run_may_return c s i = true.
+Proof.
+  intros G Li H. unfold run_may_return. specialize (G i Li).
+  destruct (run_exit (spec c i)); [exact H|reflexivity|congruence].
+Qed.
 
 Definition can_progress (c : config) (s : state) : Prop :=
   exists l, is_progress l = true /\ step c s l <> None.
@@ -114,7 +125,7 @@ Proof.
       * eapply stored_progress; eassumption.
       * enabled (LRunRet i None). unfold step. cbn [step0]. rewrite Er.
         replace (i <? nrun c) with true by (symmetry; apply Nat.ltb_lt; exact Li).
-        unfold run_may_return. rewrite (G i Li), (SC2 i eq_refl). cbn. discriminate.
+        rewrite (good_may_return c s i G Li) by (rewrite (SC2 i eq_refl); reflexivity). cbn. discriminate.
       * enabled (LStopRet i). unfold step. cbn [step0]. rewrite Es, Nat.eqb_refl. unfold stop_may_return.
         rewrite St, Er. cbn. discriminate.
       * enabled (LStopRet i). unfold step. cbn [step0]. rewrite Es, Nat.eqb_refl. unfold stop_may_return.
@@ -139,7 +150,7 @@ Proof.
       * eapply stored_progress; eassumption.
       * enabled (LRunRet i None). unfold step. cbn [step0]. rewrite Er.
         replace (i <? nrun c) with true by (symmetry; apply Nat.ltb_lt; exact Li).
-        unfold run_may_return. rewrite (G i Li), Hc, orb_true_r. cbn. discriminate.
+        rewrite (good_may_return c s i G Li) by (rewrite Hc; apply orb_true_r). cbn. discriminate.
       * enabled (LErrSend i). unfold step. cbn [step0]. rewrite Er.
         replace (i <? nrun c) with true by (symmetry; apply Nat.ltb_lt; exact Li). discriminate.
     + (* the reload manager *)
